@@ -10,3 +10,4 @@ pub fn sender_usage<T>(s: &Sender<T>) -> usize { s.channel_memory_usage.load(Ord
 pub fn receiver_usage<T>(r: &Receiver<T>) -> usize { r.channel_memory_usage.load(Ordering::SeqCst) }
 pub fn receiver_queue_len<T>(r: &Receiver<T>) -> usize { r.inner.len() }
 pub fn sender_queue_len<T>(s: &Sender<T>) -> usize { s.inner.len() }
+pub fn sender_receiver_alive<T>(s: &Sender<T>) -> bool { s.receiver_alive.load(Ordering::SeqCst) }
